@@ -29,6 +29,10 @@ def run_external(smt2, timeout_s, which=None):
         path = os.path.join(d, "q.smt2")
         with open(path, "w") as f:
             f.write(smt2)
+        # cvc5 wants an explicit logic (and model production declared before it)
+        path_cvc5 = os.path.join(d, "q.cvc5.smt2")
+        with open(path_cvc5, "w") as f:
+            f.write("(set-logic ALL)\n" + smt2)
         procs = []
         t0 = time.time()
         for name, cmd in SOLVERS:
@@ -42,7 +46,7 @@ def run_external(smt2, timeout_s, which=None):
             else:
                 extra = ["--tlimit=%d" % int(timeout_s * 1000)]
             try:
-                pr = subprocess.Popen(cmd + extra + [path], stdout=subprocess.PIPE, stderr=subprocess.STDOUT, text=True)
+                pr = subprocess.Popen(cmd + extra + [path if name != "cvc5" else path_cvc5], stdout=subprocess.PIPE, stderr=subprocess.STDOUT, text=True)
                 procs.append((name, pr))
             except OSError:
                 pass
